@@ -8,7 +8,7 @@ from .. import batcher_drv as D
 from .. import batcher_gen as G
 
 PROP = 'C09'
-READY = False
+READY = True
 PROPS_MODULE = 'C09'
 MODEL_TARGETS = ['theories/Case_C09.vo']
 HEADER = ('From Coq Require Import List NArith. Import ListNotations.\n'
@@ -36,7 +36,7 @@ ALLOWED_AXIOMS = []
 LEVEL_NOTE = ('trusted: Coq kernel + vm_compute; asyncio primitives (Queue, wait_for, FIFO Semaphore, shield, Future '
     'done-callbacks, call_later, task wake-up order) are modelled in Batcher.v and validated only by the '
     'correspondence runs; harness/vloop.py, harness/batcher_drv.py, coq/theories/Case_Batcher.v (agree + monitors).  '
-    'Monitor soundness is proved only for the simple conjuncts (monitor_sound_partial); the other conjuncts are tied '
+    'The state-free conjuncts of the monitors (ok_basic) are proved complete and sound; full-monitor soundness is proved only for simple conjuncts (monitor_sound_partial); the other conjuncts are tied '
     'to the theorems through agree (model trace = observed trace) on every case')
 TECHNIQUE = D.TECHNIQUE
 
